@@ -33,7 +33,7 @@ mut("C07: Finish ignores releaseResultCaps", ["C07"], "rpc/rpc.go",
 mut("C07: import Release always carries count 1", ["C07"], "rpc/import.go",
     "\t\trel.SetReferenceCount(uint32(ent.wireRefs))", "\t\trel.SetReferenceCount(1)")
 mut("C07: shutdown forgets to release the exports", ["C07"], "rpc/rpc.go",
-    "\tfor _, e := range exports {\n\t\tif e != nil {\n\t\t\te.client.Release()\n\t\t}\n\t}", "")
+    "\tfor _, e := range exports {\n\t\tif e != nil {\n\t\t\te.client.Release()\n\t\t}\n\t}", "\t_ = exports")
 mut("C07: releaseParamCaps ignored (reverts 537afc4 in effect)", ["C07"], "rpc/rpc.go",
     "\tif ret.ReleaseParamCaps() && len(q.paramRefs) > 0 {", "\tif false && len(q.paramRefs) > 0 {")
 mut("C07: answers keep their result capabilities after Finish", ["C07"], "rpc/answer.go",
